@@ -1,12 +1,72 @@
 CFG = dict(
-    lean_modules=["SaramaVerif.Model.OffsetMgr"],
-    lean_support=["SaramaVerif.GoSem", "SaramaVerif.Gen.C06"],
+    # Lean modules whose theorems are this property's proof obligations (built + audited on every run).
+    lean_modules=["SaramaVerif.Model.OffsetMgr", "SaramaVerif.Lemmas.C06", "SaramaVerif.Lemmas.C06Sys",
+                  "SaramaVerif.Props.C06", "SaramaVerif.Bridge.C06"],
+    lean_support=["SaramaVerif.GoSem", "SaramaVerif.Gen.C06", "SaramaVerif.Driver.C06"],
     model="C06",
-    required_theorems=[],
-    n={"quick": 300, "thorough": 100000, "search": 2000},
-    thorough_seeds=4,
+    required_theorems=[
+        # partition level, for all operation sequences
+        "Props.C06.reach_inv",
+        "Props.C06.committed_was_marked", "Props.C06.committed_was_marked_args", "Props.C06.stored_was_marked",
+        "Props.C06.mark_monotone", "Props.C06.reset_antitone", "Props.C06.mark_rejected",
+        "Props.C06.next_offset_spec", "Props.C06.next_offset_fresh", "Props.C06.next_offset_committer",
+        "Props.C06.clean_means_stored", "Props.C06.dirty_cleared_only_by_equal_commit",
+        "Props.C06.commits_monotone_without_reset", "Props.C06.store_monotone_without_reset",
+        "Props.C06.store_monotone_from_start",
+        "Props.C06.no_lost_mark", "Props.C06.no_lost_update",
+        "Props.C06.close_flushes_latest_partition",
+        # system level
+        "Props.C06.sys_reach_inv", "Props.C06.sys_partition_trace", "Props.C06.sys_committed_was_marked",
+        "Props.C06.request_blocks_are_commits", "Props.C06.sys_request_blocks_marked",
+        "Props.C06.close_flushes_latest",
+        # bridge obligations (regenerated definitions = model)
+        "Bridge.C06.markOffset_eq", "Bridge.C06.resetOffset_eq", "Bridge.C06.updateCommitted_eq",
+        "Bridge.C06.nextOffset_eq", "Bridge.C06.asyncClose_eq", "Bridge.C06.releaseDue_eq",
+        "Bridge.C06.snapshotIf_eq", "Bridge.C06.respCases_eq",
+        "Bridge.C06.pstep_mark_fields", "Bridge.C06.pstep_reset_fields", "Bridge.C06.pstep_verdict_ok_fields",
+        "Bridge.C06.pstep_release_live", "Bridge.C06.pstep_snap_block", "Bridge.C06.nextAnswer_eq",
+    ],
+    # n = random wire cases per run; the harness adds n/10+200 steered windows, n/2 fine-grained random cases and
+    # the exhaustive fine-grained enumeration (length <= 4 quick: 22 620 cases; <= 5 once per thorough run: 271 452)
+    n={"quick": 2000, "thorough": 100000, "search": 3000},
+    thorough_seeds=2,
+    timeout={"quick": 600, "thorough": 3000},
     level="proof",
-    assumptions=[],
+    assumptions=[
+        "one committer at a time (the property's quantifier): constructRequest is not entered while another commit attempt is under way; "
+        "Close's forced release happens with no attempt under way",
+        "the coordinator's offset store for the group changes only through this manager's OffsetCommit requests, and a partition answered "
+        "NoError was stored (a lost answer after storing is modelled: verdict okLost / reply connErr applied)",
+        "constructRequest / handleResponse / releasePOMs visit the partitions one by one under per-partition locks; the model makes each visit "
+        "of all partitions one step (application calls on other partitions commute with the visit of a partition)",
+        "metadata strings are opaque values that are only copied and compared (integer codes in model and line protocol)",
+        "coordinator lookup (client.RefreshCoordinator / Coordinator) and the coordinator's answers are parameters of the operations; "
+        "fetchInitialOffset's own retry loop is not part of this property (the fetch succeeds in model and harness)",
+        "the auto-commit ticker is replaced by explicit Commit() calls (ticker timing is a stated gap); marks concurrent with Close() are outside "
+        "the property (\"latest mark made before Close\")",
+    ],
     trusted_base=[],
 )
-CFG["manifest"] = dict(text="wip", note="wip", technique="wip")
+CFG["manifest"] = dict(
+    text="Proof: Lean theorems over ALL operation sequences of the partition offset manager state machine (MarkOffset, ResetOffset, AsyncClose, "
+         "ManagePartition, snapshot by constructRequest, end of a commit attempt with any verdict incl. a stored-but-unacknowledged commit, "
+         "releasePOMs, in any interleaving): every committed/stored pair is the fetched pair or the argument of an earlier accepted mark/reset; "
+         "mark never lowers / reset never raises the position; NextOffset = newest accepted pair, or the initial position when its offset < 0; "
+         "not dirty => pending pair = stored pair (dirty is cleared only by NoError for a block equal to the pending pair); commits and the "
+         "stored offset are monotone along runs without accepted reset; a mark accepted while a commit is in flight leaves the partition dirty "
+         "and is the block of the next snapshot; Close with auto-commit stores the pair pending at Close for every registered partition if one "
+         "of the Retry.Max+1 attempts is accepted (system-level theorem over partitions, cached coordinator, lookup failures, early loop exit). "
+         "A system model (all partitions, broker cache, request under way) is proved to project onto partition runs, and its request blocks to "
+         "be the partitions' newest commit-log entries. Tie: MarkOffset, ResetOffset, updateCommitted, NextOffset, AsyncClose, the releaseDue "
+         "expression, the `if pom.dirty {AddBlock…}` fragment and the case labels of handleResponse's error switch are re-translated from /repo "
+         "on every run and proved equal to the model's functions (bridge); everything else (loops over poms, maps, flushToBroker / Commit / Close "
+         "control flow, broker caching, error delivery) is tied by differential execution of the real offsetManager against the compiled model.",
+    note="Trusted: Lean kernel; translator tools/extract + GoSem.lean; harness/line protocol; sarama's MockBroker as transport of the scripted "
+         "coordinator. What each clause of handleResponse's switch DOES (which label list means commit / redispatch / tell user) is tied by "
+         "correspondence only (the switch contains a fallthrough the translator rejects); the labels themselves are bridged. Not covered: "
+         "ticker timing, several concurrent committers, fetchInitialOffset failures, real goroutine interleavings inside one visit loop "
+         "(argued by commutation, exercised only at the granularity of whole visits).",
+    technique="Lean 4 proof (invariants + induction over operation lists, projection of a system model onto partition runs) + regenerated "
+              "bridge obligations + differential correspondence (wire-level scripted coordinator with marks steered into the commit window, "
+              "and fine-grained step stream incl. exhaustive enumeration)",
+)
